@@ -668,7 +668,7 @@ func splitFormat(format string) (pieces []string, verbs []byte, ok bool) {
 	cur := ""
 	for i := 0; i < len(format); i++ {
 		if format[i] != '%' {
-			cur += string(format[i])
+			cur += format[i : i+1] // bytes, not string(byte): a non-ASCII literal piece must stay the same UTF-8 string
 			continue
 		}
 		if i+1 >= len(format) || (format[i+1] != 's' && format[i+1] != 'd') {
